@@ -274,6 +274,51 @@ fn check_receipt(r: &mut Report, v: usize) {
     }
 }
 
+/// Boundary slice of the same checks for the Miri interpreter.
+pub fn miri_slice(r: &mut Report, seed: u64, n: usize, shard: usize) -> usize {
+    let mut rng = Rng::derive(seed, 0x1717 + shard as u64);
+    let mut ops = 0;
+    for v in [0u128, 1, 9, 10, 99, 100, 255] {
+        check_u8(r, v as u8, false);
+    }
+    for b in boundary_values(16).into_iter().step_by(3) {
+        check_u16(r, b as u16, false);
+        check_tag(r, b as u16);
+        ops += 2;
+    }
+    for b in boundary_values(64).into_iter().skip(shard % 5).step_by(5) {
+        check_u64(r, b as u64, true);
+        check_usize(r, b as usize, true);
+        check_u32(r, b as u32, true);
+        ops += 3;
+    }
+    for t in [0x1f00u16, 0x1fff, 0xff00, 0xff41, 0x1e, 0x20, 0xfe, 0x06, 0x1f0e] {
+        check_tag(r, t);
+    }
+    while ops < n {
+        let len = rng.below(12) as usize;
+        let mut input: Vec<u8> = (0..len).map(|_| digit_byte(rng.below(100) as usize)).collect();
+        if len > 0 && rng.chance(1, 3) {
+            input[len - 1] |= 0x0f;
+        }
+        bcd_all(r, &input, true);
+        let tl = rng.below(6) as usize;
+        let mut t = rng.bytes(tl);
+        if let Some(l) = t.last_mut() {
+            if *l == 0 {
+                *l = 0x31;
+            }
+        }
+        check_text(r, &t, true);
+        let hl = rng.below(9) as usize;
+        check_hex(r, &rng.bytes(hl));
+        check_receipt(r, rng.below(10000) as usize);
+        ops += 8;
+    }
+    check_receipt(r, 0xffff);
+    ops
+}
+
 pub fn run(ctx: &Ctx) -> i32 {
     let mut report = ctx.report("C17", "exploration");
     report.rule = "integers: u8/u16 exhaustively, u32/u64/usize at every power-of-ten and power-of-two boundary (+-1) plus random values, each under Default(LE)/BigEndian/Bcd, encode compared with an independent formula and decode(encode(v)) with (v, nothing left); all 65536 tags under BigEndian and every representable tag under Default; BCD *inputs*: every digit string of 0..3 bytes with and without a trailing F pad exhaustively, sampled to 11 bytes, for all five integer widths (value, or error when the digits exceed the type); CP437: every byte string of length 1..2 and all 256 bytes in each position of length-3 strings (canonical = no trailing NUL), random strings to 999 bytes; hex strings to 64 bytes; receipt numbers 0..9999 and FFFF. Non-trivial = inside the claimed domain; distinct = distinct (encoding, type, value/input).".into();
@@ -428,5 +473,8 @@ pub fn run(ctx: &Ctx) -> i32 {
     report.sample(json!({"encoding": "Bcd", "type": "u16", "value": "1234", "bytes": hex(&bcd_bytes(1234))}));
     report.sample(json!({"bcd_input": "0123456f", "value": Codec::bcd_value(&[0x01, 0x23, 0x45, 0x6f], u64::MAX as u128).ok().map(|v| v.to_string())}));
     report.sample(json!({"tag": "1f0e", "default_bytes": tag_bytes(0x1f0e).map(|b| hex(&b))}));
+    if !ctx.quick() && std::env::var("VERIF_NO_MIRI").is_err() {
+        crate::c02::miri_tier(&mut report, "c17", 16, 200, ctx.seed);
+    }
     report.finish()
 }
